@@ -395,7 +395,8 @@ def refeval(net, arrays, fix=None, keep_fixed_output=False):
         else:
             v = a.reshape((1,) * K)
         acc = v if acc is None else acc * v
-    full = [1 if (ix + 1) in fix else dims[ix] for ix in range(K)]
+    used = {ix for t in net.inputs for ix in t}
+    full = [1 if ((ix + 1) in fix or (ix + 1) not in used) else dims[ix] for ix in range(K)]
     acc = np.broadcast_to(acc, full) if acc is not None else np.ones(full)
     out_ix = [ix for ix in net.output if (keep_fixed_output or ix not in fix)]
     sum_axes = tuple(ix - 1 for ix in range(1, K + 1) if ix not in net.output)
